@@ -25,16 +25,15 @@ theorem truthy_neg_int (n : Nat) : (Json.num (.neg n)).truthy false = true := rf
 theorem truthy_include_zero (n : Num) : (Json.num n).truthy true = true := by
   cases n <;> rfl
 
-/-- floats, PARTIAL: the code tests `f64::is_normal`, so ±0.0 is false and every *normal* float is
-    true; the full statement "everything but 0 is true" fails for subnormals (negation witness below). -/
-theorem truthy_float_partial (b : Nat) (hn : F64.isNormal b = true) : (Json.num (.flt b)).truthy false = true := by
-  simp [Json.truthy, Num.asF64Normal, hn]
+/-- floats: ±0.0 is false, EVERYTHING else is true – subnormals included (they were falsy before the
+    repair recorded in known_findings.json as `fixed: property=C06`) -/
+theorem truthy_float (b : Nat) : (Json.num (.flt b)).truthy false = !F64.isZero b := rfl
 
 theorem truthy_float_zero : (Json.num (.flt 0)).truthy false = false ∧ (Json.num (.flt F64.negZero)).truthy false = false := by
   decide
 
-/-- NEGATION WITNESS (known finding F5): the smallest subnormal 5e-324 (bits = 1) is non-zero and falsy. -/
-theorem subnormal_is_falsy : F64.isZero 1 = false ∧ (Json.num (.flt 1)).truthy false = false := by decide
+/-- the smallest subnormal 5e-324 (bits = 1) is non-zero and therefore true -/
+theorem subnormal_is_truthy : F64.isZero 1 = false ∧ (Json.num (.flt 1)).truthy false = true := by decide
 
 /-! ### if / unless pick exactly one branch and do not touch the scope -/
 
